@@ -1,1 +1,286 @@
-/-! Property theorems for C11 (see /verif/DESIGN.md). Only property theorems and non-vacuity examples live here. -/
+import Proofs.C11Counts
+import Proofs.C11Exit
+import Proofs.C11Range
+import Proofs.C11Stream
+import Proofs.C11Visits
+/-!
+# C11 — input bookkeeping: NR, FNR, FILENAME, operands, getline, ranges, next, exit
+
+Property theorems over the main-loop machine `GoawkModel.C11` (model of `executeAll` / `execActions` / `nextLine` and the
+getline / next / nextfile / exit opcodes). Quantifiers: every program of the rule language (arbitrary nesting of calls,
+loops and conditionals; patterns are arbitrary functions of the record view), every world (ARGV, files, stdin), every fuel.
+-/
+namespace GoawkModel.C11.Props
+open GoawkModel GoawkModel.C11
+
+/-- a fresh interpreter: no record taken, nothing traced, status 0 -/
+def Initial (s : St) : Prop :=
+  s.nr = 0 ∧ s.iters = 0 ∧ s.gl = 0 ∧ s.glv = 0 ∧ s.out = [] ∧ s.status = 0
+
+/-- **nr_counts.** After any program on any world: NR = (records the main loop took) + (successful plain getlines) +
+(successful `getline var`s) — and the same held at the moment of every traced action (`ghost` is the sum of the three
+call-site counters then). `getline < file` forms, next, nextfile, exit, ARGV edits contribute nothing. -/
+theorem nr_counts (fuel : Nat) (p : Prog) (s : St) (h0 : Initial s) :
+    (run fuel p s).2.nr = (run fuel p s).2.iters + (run fuel p s).2.gl + (run fuel p s).2.glv ∧
+    ∀ tag nr fnr fn line nf vars ghost, Event.emit tag nr fnr fn line nf vars ghost ∈ (run fuel p s).2.out → nr = ghost := by
+  obtain ⟨hnr, hit, hgl, hglv, hout, -⟩ := h0
+  have hinv : NrInv s := ⟨by rw [hnr, hit, hgl, hglv], by rw [hout]; intro e he; cases he⟩
+  have h := run_preserves nrInv_stable fuel p s hinv
+  exact ⟨h.1, fun tag nr fnr fn line nf vars ghost he => h.2 _ he⟩
+
+/-- a fresh interpreter before any input was touched: operand cursor at ARGV[1], no scanner, no input seen -/
+def Fresh (s : St) : Prop :=
+  s.idx = 1 ∧ s.cur = none ∧ s.hadFiles = false ∧ s.takes = [] ∧ s.edited = false
+
+/-- **operands_in_order / fnr_restarts / filename_current.** For every program, world and fuel: as long as the program has not
+assigned ARGV / ARGC nor executed nextfile (`edited = false`, a ghost flag those steps set), the records taken from the main
+input so far — by the main loop, `getline` and `getline var` in whatever interleaving, oldest first, each with the FILENAME
+and FNR it was given — followed by what the input would still deliver, are the declarative stream `streamSpec` of the operand
+list: operands left to right, assignments and empty operands deliver nothing, `-` is stdin, each file's records are numbered
+from 1 under its own name, and stdin is read once when no operand named an input. -/
+theorem operands_in_order (fuel : Nat) (p : Prog) (s : St) (h0 : Fresh s) :
+    (run fuel p s).2.edited = false →
+    (((run fuel p s).2.takes.map TakeInfo.item).reverse ++ pending (run fuel p s).2 =
+      streamSpec s.fs (operandsFrom s.argv 1 (s.argc - 1)) false s.stdin) := by
+  obtain ⟨hidx, hcur, hhad, htakes, -⟩ := h0
+  have hinv : StreamInv (streamSpec s.fs (operandsFrom s.argv 1 (s.argc - 1)) false s.stdin) s := by
+    intro _
+    simp [pending, remaining, hidx, hcur, hhad, htakes]
+  exact run_preserves (streamInv_stable _) fuel p s hinv
+
+/-- in particular the records taken are a prefix of the specified stream -/
+theorem taken_is_prefix (fuel : Nat) (p : Prog) (s : St) (h0 : Fresh s) (he : (run fuel p s).2.edited = false) :
+    ((run fuel p s).2.takes.map TakeInfo.item).reverse <+: streamSpec s.fs (operandsFrom s.argv 1 (s.argc - 1)) false s.stdin :=
+  ⟨_, operands_in_order fuel p s h0 he⟩
+
+/-- … and when the main loop ends normally (it read the input to its end) without such edits, the records taken are the
+whole stream: every record of every operand was delivered exactly once, in order -/
+theorem whole_stream_taken (fuel : Nat) (rules : List Rule) (fl : List Bool) (s s2 : St) (h0 : Fresh s)
+    (hm : mainLoop fuel rules fl s = (.normal, s2)) (he : s2.edited = false) :
+    (s2.takes.map TakeInfo.item).reverse = streamSpec s.fs (operandsFrom s.argv 1 (s.argc - 1)) false s.stdin := by
+  obtain ⟨hidx, hcur, hhad, htakes, -⟩ := h0
+  have hinv : StreamInv (streamSpec s.fs (operandsFrom s.argv 1 (s.argc - 1)) false s.stdin) s := by
+    intro _
+    simp [pending, remaining, hidx, hcur, hhad, htakes]
+  have h1 := mainLoop_preserves (streamInv_stable _) fuel rules fl s hinv
+  have h2 := mainLoop_normal_drained fuel rules fl s (by rw [hm])
+  rw [hm] at h1 h2
+  have h3 := h1 he
+  simp only at h2
+  rw [h2, List.append_nil] at h3
+  exact h3
+
+/-- every step of the walk is one of these: an assignment operand is applied at the moment it is fetched — after the records
+of every earlier operand were delivered (the walk is only entered when the scanner is exhausted) and before any later operand
+is looked at — and an empty operand is skipped -/
+theorem assign_applied_when_reached (n : Nat) (s : St) (name val : Bytes)
+    (h : classify (s.argv.getD s.idx []) = .assign name val) :
+    openWalk (n + 1) s = openWalk n (s.fetch.2.setVarByName name val) := by
+  conv => lhs; unfold openWalk
+  simp only [St.fetch, h]
+
+theorem empty_operand_skipped (n : Nat) (s : St) (h : classify (s.argv.getD s.idx []) = .empty) :
+    openWalk (n + 1) s = openWalk n s.fetch.2 := by
+  conv => lhs; unfold openWalk
+  simp only [St.fetch, h]
+
+/-- **getline_var_only.** `getline var` leaves `$0` (hence NF), the exit status and the getline streams alone; on success it
+advances NR by one and stores the record in `var` (on top of whatever var=value operands the walk crossed); otherwise NR
+stays. -/
+theorem getline_var_only (s : St) (v : Nat) :
+    (doGetlineVar s v).line = s.line ∧ nfOf (doGetlineVar s v).line = nfOf s.line ∧
+    (doGetlineVar s v).status = s.status ∧ (doGetlineVar s v).streams = s.streams ∧
+    (match (nextLine s).1 with
+     | .got r => (doGetlineVar s v).nr = s.nr + 1 ∧ (doGetlineVar s v).vars = setPad (nextLine s).2.vars v r
+     | _ => (doGetlineVar s v).nr = s.nr ∧ (doGetlineVar s v).vars = (nextLine s).2.vars) := by
+  have hf := nextLine_frame s
+  unfold doGetlineVar
+  rcases hn : nextLine s with ⟨t, s1⟩
+  rw [hn] at hf
+  obtain ⟨-, -, -, -, h5, h6, h7, -, -, -, h11⟩ := hf
+  simp only at h5 h6 h7 h11
+  cases t <;> simp_all [St.setVar, St.emitEv, Take.delta]
+
+/-- **getline_file_nr.** `getline < file` leaves NR, FNR, FILENAME, the position in the main input (operand cursor, open
+scanner, stdin), the variables and the ghost counters alone. -/
+theorem getline_file_nr (s : St) (f : Bytes) :
+    (doGetlineFile s f).nr = s.nr ∧ (doGetlineFile s f).fnr = s.fnr ∧ (doGetlineFile s f).filename = s.filename ∧
+    (doGetlineFile s f).cur = s.cur ∧ (doGetlineFile s f).idx = s.idx ∧ (doGetlineFile s f).stdin = s.stdin ∧
+    (doGetlineFile s f).vars = s.vars ∧ (doGetlineFile s f).iters = s.iters := by
+  have hf := readStream_fields s f
+  unfold doGetlineFile
+  rcases hr : readStream s f with ⟨ret, o, s1⟩
+  rw [hr] at hf
+  cases o <;> simp_all [St.setLine, St.emitEv]
+
+/-- `getline var < file`: additionally `$0` / NF are untouched, and only `var` may change -/
+theorem getline_var_file_nr (s : St) (v : Nat) (f : Bytes) :
+    (doGetlineVarFile s v f).nr = s.nr ∧ (doGetlineVarFile s v f).fnr = s.fnr ∧
+    (doGetlineVarFile s v f).filename = s.filename ∧ (doGetlineVarFile s v f).cur = s.cur ∧
+    (doGetlineVarFile s v f).idx = s.idx ∧ (doGetlineVarFile s v f).line = s.line ∧
+    ((doGetlineVarFile s v f).vars = s.vars ∨ ∃ r, (doGetlineVarFile s v f).vars = setPad s.vars v r) := by
+  have hf := readStream_fields s f
+  unfold doGetlineVarFile
+  rcases hr : readStream s f with ⟨ret, o, s1⟩
+  rw [hr] at hf
+  cases o with
+  | none => simp_all [St.setVar, St.emitEv]
+  | some r =>
+    simp_all [St.setVar, St.emitEv]
+    exact Or.inr ⟨r, rfl⟩
+
+/-- **range_spec.** The records a range rule selects, among the records that reach it, are exactly those covered by a
+segment that starts at a record satisfying the first pattern and has not met a record satisfying the second before
+(`Selected`, a positional definition without recursion): from a record matching `b` through the next record matching `e`,
+inclusive, possibly the same record. `matchPat` is what `runRules` does for the rule; `rangeRun` iterates it. -/
+theorem range_spec (xs : List (Bool × Bool)) (i : Nat) (h : i < xs.length) :
+    (rangeRun false xs).getD i false = true ↔
+      ∃ j, j ≤ i ∧ (xs.getD j (false, false)).1 = true ∧ ∀ k, j ≤ k → k < i → (xs.getD k (false, false)).2 = false :=
+  rangeRun_selected xs i h
+
+/-- **range_spec, in the whole machine.** For every program, world and fuel and every rule position `i`: the decisions taken
+at the successive evaluations of rule `i` (ghost log `visits`; a record reaches the rule unless an earlier rule executed
+next / nextfile / exit for it, and sees `$0` as earlier rules left it) are exactly the positional definition `Selected` over the
+pattern values at those evaluations. -/
+theorem range_spec_machine (fuel : Nat) (p : Prog) (s : St) (h0 : s.visits = []) (i k : Nat)
+    (hk : k < (history i (run fuel p s).2.visits).length) :
+    (((history i (run fuel p s).2.visits).map (·.matched)).getD k false = true ↔
+      Selected ((history i (run fuel p s).2.visits).map Visit.be) k) := by
+  rw [consistent_history i _ (run_visits fuel p s h0)]
+  exact rangeRun_selected _ k (by simpa using hk)
+
+/-- the rule step of the machine is the automaton step (so `range_spec` speaks about `runRules`) -/
+theorem range_step_is_machine (b e : View → Bool) (flag : Bool) (v : View) :
+    matchPat (.range b e) flag v = rangeStep flag (b v) (e v) := rfl
+
+/-- a range already open stays open until a record satisfies the second pattern, across file boundaries too: the flag
+depends on nothing but the previous flag and the two pattern values -/
+theorem range_open_general (xs : List (Bool × Bool)) (f : Bool) (i : Nat) (h : i < xs.length) :
+    (rangeRun f xs).getD i false = true ↔ (Selected xs i ∨ (f = true ∧ StillOpen xs i)) :=
+  rangeRun_spec xs f i h
+
+/-- **next_abandons / nextfile_abandons (unwinding).** A signal raised anywhere in an op list — `next`, `nextfile`, `exit`,
+from any depth of calls, loops and conditionals — ends the list: nothing after it runs. -/
+theorem unwind_append (os more : List Op) (s : St) (sig : Sig) (s1 : St)
+    (h : execOps os s = (sig, s1)) (hs : sig ≠ .normal) : execOps (os ++ more) s = (sig, s1) :=
+  execOps_abort os more s sig s1 h hs
+
+theorem unwind_call (body : List Op) (s : St) : execOp (.call body) s = execOps body s := by simp [execOp]
+
+theorem unwind_loop (n : Nat) (body : List Op) (s : St) (sig : Sig) (s1 : St)
+    (h : execOps body s = (sig, s1)) (hs : sig ≠ .normal) : execOp (.loop (n + 1) body) s = (sig, s1) :=
+  loop_abort n body s sig s1 h hs
+
+theorem unwind_cond (c : View → Bool) (body : List Op) (s : St) (hc : c s.view = true) :
+    execOp (.cond c body) s = execOps body s := by simp [execOp, hc]
+
+/-- at rule level: when the body of a matching rule raises a signal, the later rules are not visited for this record —
+their range flags are untouched and the state is the one the signal left -/
+theorem next_abandons_rules (r : Rule) (rs : List Rule) (f : Bool) (fl : List Bool) (s s1 : St) (ops : List Op) (sig : Sig)
+    (i : Nat) (hm : (matchPat r.pat f s.view).1 = true) (hb : r.body = some ops)
+    (h : execOps ops (s.logVisit i r.pat f) = (sig, s1)) (hs : sig ≠ .normal) :
+    runRules i (r :: rs) (f :: fl) s = (sig, (matchPat r.pat f s.view).2 :: fl, s1) := by
+  unfold runRules
+  simp only [hm, hb, h]
+  cases sig <;> first | rfl | exact absurd rfl hs
+
+/-- at main-loop level: `next` goes straight to the next record; `nextfile` drops the scanner first, so that the next
+record comes from the operand walk (the rest of the current file is never delivered) -/
+theorem next_continues (fuel : Nat) (rules : List Rule) (fl fl' : List Bool) (s s1 s3 : St) (r : Rec)
+    (hn : nextLine s = (.got r, s1)) (hr : runRules 0 rules fl (s1.beginRecord r) = (.next, fl', s3)) :
+    mainLoop (fuel + 1) rules fl s = mainLoop fuel rules fl' s3 := by
+  simp [mainLoop, hn, hr]
+
+theorem nextfile_continues (fuel : Nat) (rules : List Rule) (fl fl' : List Bool) (s s1 s3 : St) (r : Rec)
+    (hn : nextLine s = (.got r, s1)) (hr : runRules 0 rules fl (s1.beginRecord r) = (.nextfile, fl', s3)) :
+    mainLoop (fuel + 1) rules fl s = mainLoop fuel rules fl' s3.dropScanner ∧
+    nextLine s3.dropScanner = openWalk (s3.argc - s3.idx) s3.dropScanner := by
+  refine ⟨by simp [mainLoop, hn, hr], ?_⟩
+  simp [nextLine, St.dropScanner]
+
+/-- **exit_runs_end.** `exit` in the main loop stops reading (the loop returns at once with the state the exit left) … -/
+theorem exit_stops_reading (fuel : Nat) (rules : List Rule) (fl fl' : List Bool) (s s1 s3 : St) (r : Rec)
+    (hn : nextLine s = (.got r, s1)) (hr : runRules 0 rules fl (s1.beginRecord r) = (.exit, fl', s3)) :
+    mainLoop (fuel + 1) rules fl s = (.exit, s3) := by
+  simp [mainLoop, hn, hr]
+
+/-- … and END still runs, on exactly that state: its `$0` (hence NF) is the one of the moment of the exit, i.e. of the last
+record. -/
+theorem exit_runs_end (fuel : Nat) (p : Prog) (s s1 s2 : St) (hb : execOps p.begin s = (.normal, s1))
+    (hne : (p.rules.isEmpty && p.end_.isNone) = false)
+    (hm : mainLoop fuel p.rules (p.rules.map fun _ => false) s1 = (.exit, s2)) :
+    (run fuel p s).2 = (execOps (p.end_.getD []) s2).2 := by
+  have hmp : mainPhase fuel p .normal s1 = (.exit, s2) := by simp [mainPhase, hm]
+  simp [run, hb, hne, hmp, endPhase_snd]
+
+/-- `exit` in BEGIN skips the main loop altogether (no record is read: END starts from the state BEGIN left) -/
+theorem exit_in_begin_runs_end (fuel : Nat) (p : Prog) (s s1 : St) (hb : execOps p.begin s = (.exit, s1))
+    (hne : (p.rules.isEmpty && p.end_.isNone) = false) :
+    (run fuel p s).2 = (execOps (p.end_.getD []) s1).2 := by
+  have hmp : mainPhase fuel p .exit s1 = (.exit, s1) := by simp [mainPhase]
+  simp [run, hb, hne, hmp, endPhase_snd]
+
+/-- **exit_status.** The exit status of any run is the value of the last `exit n` executed (`exit` without a value keeps
+it; 0 when there was none). -/
+theorem exit_status (fuel : Nat) (p : Prog) (s : St) (h0 : Initial s) :
+    (run fuel p s).2.status = lastExit (run fuel p s).2.out := by
+  obtain ⟨-, -, -, -, hout, hst⟩ := h0
+  have hinv : StatusInv s := by unfold StatusInv; rw [hst, hout]; rfl
+  exact run_preserves statusInv_stable fuel p s hinv
+
+/-! ## non-vacuity -/
+
+private def w0 : St :=
+  { fs := [([107, 49], [[112], [113]]), ([107, 50], [[97], [98], [99]])], stdin := [], argv := [[], [107, 49], [118, 48, 61, 55], [107, 50]],
+    argc := 4, varNames := [[118, 48]] }
+
+example : Initial w0 := ⟨rfl, rfl, rfl, rfl, rfl, rfl⟩
+example : Fresh w0 := ⟨rfl, rfl, rfl, rfl, rfl⟩
+
+/-- the specified stream of `w0`: k1's two records, then (after the assignment operand) k2's three, FNR restarting -/
+example : streamSpec w0.fs (operandsFrom w0.argv 1 (w0.argc - 1)) false w0.stdin =
+    [([107, 49], 1, [112]), ([107, 49], 2, [113]), ([107, 50], 1, [97]), ([107, 50], 2, [98]), ([107, 50], 3, [99])] := by
+  decide +kernel
+
+/-- no file operand: stdin, once; `-` twice: the second delivers nothing; empty operands are skipped -/
+example : streamSpec [] [[118, 61, 49], []] false [[120], [121]] = [([45], 1, [120]), ([45], 2, [121])] := by decide +kernel
+example : streamSpec [] [[45], [], [45]] false [[120]] = [([45], 1, [120])] := by decide +kernel
+
+/-- two files with an assignment operand between them, a rule that traces every record: NR 1..5, FNR restarts, the
+assignment shows from the second file on -/
+example : ((run 100 ⟨[], [⟨.always, some [.emit 0]⟩], none⟩ w0).2.out.reverse.map fun
+      | .emit _ nr fnr fn _ _ vars _ => (nr, fnr, fn, vars)
+      | _ => (0, 0, [], [])) =
+    [(1, 1, [107, 49], []), (2, 2, [107, 49], []), (3, 1, [107, 50], [[55]]), (4, 2, [107, 50], [[55]]), (5, 3, [107, 50], [[55]])] := by
+  decide +kernel
+
+/-- next from inside a call inside a loop abandons the record; exit 3 inside a function still runs END with the last `$0` -/
+example : ((run 100 ⟨[], [⟨.pred (fun v => v.nr == 2), some [.loop 2 [.call [.next, .emit 1]], .emit 2]⟩,
+                          ⟨.pred (fun v => v.nr == 4), some [.call [.exit (some 3)], .emit 3]⟩,
+                          ⟨.always, some [.emit 0]⟩], some [.emit 9]⟩ w0).2.out.reverse.map fun
+      | .emit tag nr _ _ line _ _ _ => (tag, nr, line)
+      | .ctl k _ => (100 + k, 0, [])
+      | _ => (0, 0, [])) =
+    [(0, 1, [112]), (101, 0, []), (0, 3, [97]), (103, 0, []), (9, 4, [98])] ∧
+    (run 100 ⟨[], [⟨.pred (fun v => v.nr == 4), some [.call [.exit (some 3)]]⟩], some [.emit 9]⟩ w0).2.status = 3 := by
+  decide +kernel
+
+/-- a range rule behind a rule that executes `next` on record 3: the range rule is visited for records 1, 2, 4, 5 only;
+it opens on record 2 (`q`), is not closed by record 3 (never seen) and closes on record 4 (`b`) -/
+example : (history 1 (run 100 ⟨[], [⟨.pred (fun v => v.nr == 3), some [.next]⟩,
+                                      ⟨.range (fun v => v.line == [113]) (fun v => v.line == [98] || v.line == [97]), some [.emit 1]⟩], none⟩
+      w0).2.visits).map (fun v => (v.b, v.e, v.matched)) =
+    [(false, false, false), (true, false, true), (false, true, true), (false, false, false)] := by
+  decide +kernel
+
+/-- a range that opens and closes on the same record, and one that stays open -/
+example : rangeRun false [(true, true), (false, false), (true, false), (false, false), (false, true), (false, false)] =
+    [true, false, true, true, true, false] := by decide
+
+example : Selected [(true, true), (false, false), (true, false), (false, false), (false, true), (false, false)] 4 :=
+  ⟨2, by decide, by decide, by
+    intro k h1 h2
+    have : k = 2 ∨ k = 3 := by omega
+    rcases this with rfl | rfl <;> decide⟩
+
+end GoawkModel.C11.Props
